@@ -596,9 +596,9 @@ func parCases(shard, shards int, tier string, yield func(Case) bool) {
 					}
 				}
 			}
-		case k <= 24: // every shape once (from 2^22 on: 9 of the 13), every GOMAXPROCS once or twice; other pairs for every k
+		case k <= 24: // every shape once (quick: 9 of the 13 for 2^22, 6 for 2^23 and 2^24), with GOMAXPROCS in turn; other pairs for every k
 			for si := 0; si < nshapes; si++ {
-				if k >= 22 && (si+k)%13 >= 9 {
+				if tier != "thorough" && (k >= 23 && (si+k)%13 >= 6 || k == 22 && (si+k)%13 >= 9) {
 					continue
 				}
 				if !emit(mk("u8", k, si, si+k, si*3+k)) {
@@ -624,7 +624,7 @@ func parCases(shard, shards int, tier string, yield func(Case) bool) {
 	for _, t := range []struct {
 		T          string
 		minK, maxK int
-	}{{"", 18, 22}, {"f64x2", 18, 21}, {"padded", 18, 18}, {"any", 18, 19}, {"slice", 18, 18}} {
+	}{{"", 18, 22}, {"f64x2", 18, 20}, {"padded", 17, 17}, {"any", 18, 18}, {"slice", 18, 18}} {
 		maxk, per := t.maxK, 2
 		if tier == "thorough" {
 			maxk, per = t.maxK+2, 6
@@ -646,13 +646,13 @@ var specPar = pbt.Register(&pbt.Spec[Case]{
 	Property: "C08", Name: "C08.par",
 	Rule: "enumerated, very large grids under different GOMAXPROCS: for every k = 18..26 (thorough 27) a grid of 2^k + 2^(k-4) cells of 1 byte (u8) in the shapes {about 2s x s/2, 5 x n/5 (at most 2^19 rows), n/3 x 3, " +
 		"n/17 x 17, 129 x n/129, square, n/8 x 8, n x 1, n/1000 x 1000, n/33 x 33, 4097 x n/4097, n/2 x 2, n/65537 x 65537} with runtime.GOMAXPROCS set to 2, 3, 5, 6, 7, 16 and 1 inside the case " +
-		"(k <= 21: every shape once, k = 22..24: 9 of the 13, each k pairing shapes and GOMAXPROCS differently; k = 25: GOMAXPROCS 2, 16, 3, 7, 1, 5 and k = 26: 5, 2, 16 with the shapes in turn; " +
+		"(k <= 21: every shape once, k = 22: 9 and k = 23, 24: 6 of the 13, each k pairing shapes and GOMAXPROCS differently; k = 25: GOMAXPROCS 2, 16, 3, 7, 1, 5 and k = 26: 5, 2, 16 with the shapes in turn; " +
 		"thorough: k <= 23 every shape with every GOMAXPROCS, above every GOMAXPROCS twice); constructor in turn New2D, New2DFilled (ordinary value, zero value), " +
 		"New2DFromJagged with h+1 separately allocated rows of w+1 values, New2DFromJagged with the rows of a flat matrix or of another Array2D as views (in order / two rows exchanged); script: " +
 		"Fill of everything but a border of 3 columns and 2 rows (so a rectangle of at least 2^k cells whose rows are NOT adjacent in memory) with x or y corners exchanged, [runtime.GC()], " +
 		"Fill of the whole grid with the zero value (both corners exchanged), Clone (continue on either side, the other a frozen witness), Fill of everything below the first row, Row and RowSpan " +
-		"written through and kept, Set, three calls just outside the bounds (k >= 25: without the zero-value Fill, RowSpan and Set, one call outside). The same with 8-byte (int, k = 18..22), 16-byte (f64x2, k <= 21; " +
-		"any, k <= 19), 24-byte (slice, k = 18) and 96-byte (padded, k = 18) cells (thorough: two powers more). " +
+		"written through and kept, Set, three calls just outside the bounds (k >= 25: without the zero-value Fill, RowSpan and Set, one call outside). The same with 8-byte (int, k = 18..22), 16-byte (f64x2, k <= 20; " +
+		"any, k = 18), 24-byte (slice, k = 18) and 96-byte (padded, k = 17) cells (thorough: two powers more). " +
 		"Read-back after the constructor and after EVERY operation: Row(y) of every row compared with the model as a block (length = width) and Get in the columns at the edges of the grid and of " +
 		"the last rectangle / window (in every row up to 4096 rows, else in 4096 rows spread over the grid and those around the rectangle's first, middle and last row); all kept windows and the clone witness likewise; at the end Get over the whole grid (above 2^20 cells: at 2^20 cells spread evenly over it). non-trivial = w != h and a Fill of at least 2^18 cells succeeded",
 	Enum: parCases,
